@@ -105,7 +105,7 @@ def _others_unchanged(cache, pre, except_keys, tag):
             check(tag + "other-entry-untouched", cache.cache[k] is e, k)
 
 
-def _step_put(K, r, h, s, order, budget, wt, target, newsize, has_result):
+def _step_put(K, r, h, s, order, budget, wt, target, newsize, has_result, frame=False, newsize2=0):
     w = [(wt if i == target else False) for i in range(K)]
     cache, pre, oracle = _common(K, r, h, s, order, budget, w)
     assume(newsize >= 0)
@@ -116,13 +116,36 @@ def _step_put(K, r, h, s, order, budget, wt, target, newsize, has_result):
     hr = True if has_result else False
     orig = MemoryCache._estimate_object_size
     oracle.sizes[id(newval)] = newsize
-    MemoryCache._estimate_object_size = staticmethod(oracle)
+    estimator = oracle
+    if frame and has_result:
+        # a DataFrame result (the cache copies it): its size ESTIMATE is sampled, so two estimates of the same frame may differ -
+        # successive estimates are newsize, then newsize2 (both arbitrary); whatever the cache attributes must be consistent
+        import pandas as pd
+
+        cover("dataframe-result")
+        newval = pd.DataFrame({"a": [1, 2]})
+        answers = [newsize, newsize2]
+
+        def estimator(obj, _o=oracle, _a=answers):
+            if isinstance(obj, pd.DataFrame):
+                return _a.pop(0) if len(_a) > 1 else _a[0]
+            return _o(obj)
+    MemoryCache._estimate_object_size = staticmethod(estimator)
     try:
         cache.put(memento, newval, hr)
     finally:
         MemoryCache._estimate_object_size = orig
     check_invariant(cache)
     old_others = [k for k in pre["lru"] if k != key]
+    if frame and has_result:
+        # with a frame only the accounting invariant, residency of what fits and the weak reference are checked
+        e = cache.cache.get(key)
+        if e is not None:
+            check("resident-frame-is-attributed-at-most-the-budget", e.obj_size <= budget, (e.obj_size, budget))
+            check("resident-frame-equals-the-result", e.value.equals(newval), None)
+        elif newsize <= budget:
+            check("fitting-frame-is-resident", False, (newsize, budget))
+        return
     if newsize > budget:
         cover("oversize")
         # an oversize result is never resident - and neither is a stale predecessor
@@ -174,6 +197,24 @@ def _step_put(K, r, h, s, order, budget, wt, target, newsize, has_result):
 def step_put(r0: bool, r1: bool, r2: bool, h0: bool, h1: bool, h2: bool, s0: int, s1: int, s2: int,
              order: int, budget: int, wt: bool, target: int, newsize: int, has_result: bool):
     _step_put(3, [r0, r1, r2], [h0, h1, h2], [s0, s1, s2], order, budget, wt, target, newsize, has_result)
+
+
+@obligation(
+    "C06.step_put_frame",
+    covers=("dataframe-result",),
+    split={"target": [0, 1, 2]},
+    bounds="as C06.step_put with a pandas DataFrame result (copied by the cache) whose size ESTIMATES are arbitrary and may differ from "
+           "one estimate to the next (the real estimator samples rows): accounting invariant, no resident entry attributed more than "
+           "the budget, a frame whose first estimate fits is resident",
+    variables="data: s0..s2, newsize, newsize2, budget; choice: r*, order",
+    stubs=("SizeOracle with two successive answers for the frame",),
+    budget_s={"quick": 170, "thorough": 600},
+    data_vars=6, choice_vars=4,
+)
+def step_put_frame(r0: bool, r1: bool, r2: bool, s0: int, s1: int, s2: int, order: int, budget: int, target: int, newsize: int,
+                   newsize2: int):
+    assume(newsize2 >= 0)
+    _step_put(3, [r0, r1, r2], [r0, r1, r2], [s0, s1, s2], order, budget, False, target, newsize, True, frame=True, newsize2=newsize2)
 
 
 def _snapshot(cache):
